@@ -231,6 +231,8 @@ func runC07(c *report.Ctx) {
 	checkReplySinkGuards(c) // trySendDefaultErrorResponse tolerates exactly the refusals the sink returns for a stale id
 	checkShutdownAgents(c)  // wg.Add per started extension only: reset/shutdown return
 	checkWatchdogIndependent(c)
+	checkInitResultAcked(c)
+	checkStartWiresConfiguration(c)
 	checkTeardownBeforeAnswer(c) // reset deadline on the monotonic clock the shutdown measures against
 }
 
